@@ -53,8 +53,51 @@ PAIRS = {
 }
 LINK_KEYS = {"Receivers": 0, "Potential Electrodes": 0, "Transmitters": 1, "Base stations": 1, "Current Electrodes": 1}
 KEYMAP = {"Waveform": 2, "Tx ID property": 3, "Unit": 10, "Channels": 11, "Loop radius": 12, "Input type": 13, "Survey type": 14,
-          "Property groups": 15, "Angles relative to bearing": 16, "P0": 20, "P1": 21, "P2": 22, "P3": 23, "note": 24, "Timing mark": 0,
+          "Property groups": 15, "Angles relative to bearing": 16, "Coordinate Reference System": 30, "Nested": 31, "Current": 0, "Previous": 1, "a": 40, "P0": 20, "P1": 21, "P2": 22, "P3": 23, "note": 24, "Timing mark": 0,
           "Discretization": 1}
+
+
+# concrete survey classes whose `default_input_types` / `default_units` getter reads a name-mangled private attribute that the
+# defining class does not assign (AttributeError at run time) — read from the source under test by regenerate()
+BROKEN = {"default_input_types": set(), "default_units": set()}
+
+
+def _scan_private_getters(repo):
+    import ast
+    from pathlib import Path
+
+    classes = {}   # name -> (bases, {method: broken?})
+    for f in sorted((Path(repo) / "geoh5py/objects/surveys/electromagnetics").glob("*.py")):
+        tree = ast.parse(f.read_text())
+        for cls in [n for n in ast.walk(tree) if isinstance(n, ast.ClassDef)]:
+            assigned = {t.id for st in cls.body if isinstance(st, ast.Assign) for t in st.targets if isinstance(t, ast.Name)}
+            meths = {}
+            for st in cls.body:
+                if isinstance(st, ast.FunctionDef):
+                    used = {n.attr for n in ast.walk(st) if isinstance(n, ast.Attribute) and isinstance(n.value, ast.Name) and n.value.id == "self"}
+                    meths[st.name] = any(a.startswith("__") and not a.endswith("__") and a not in assigned for a in used)
+            bases = [b.id if isinstance(b, ast.Name) else getattr(b, "attr", "") for b in cls.bases]
+            classes[cls.name] = (bases, meths)
+
+    def mro(name, seen=None):
+        # depth-first, left to right, last occurrence kept (a sufficient approximation of C3 for this hierarchy)
+        out = [name]
+        for b in classes.get(name, ([], {}))[0]:
+            out += mro(b)
+        res = []
+        for c in reversed(out):
+            if c not in res:
+                res.append(c)
+        return list(reversed(res))
+    out = {"default_input_types": set(), "default_units": set()}
+    for name in classes:
+        for prop in out:
+            for c in mro(name):
+                if c in classes and prop in classes[c][1]:
+                    if classes[c][1][prop]:
+                        out[prop].add(name)
+                    break
+    return out
 
 
 def regenerate(repo):
@@ -83,7 +126,11 @@ def regenerate(repo):
     f = gen / "C20_Flags.v"
     if not f.exists() or f.read_text() != text:
         f.write_text(text)
-    return {"tables": {"tipper_units_broken": int(broken)}}
+    scan = _scan_private_getters(repo)
+    for k_ in BROKEN:
+        BROKEN[k_] = scan[k_]
+    return {"tables": {"tipper_units_broken": int(broken), "broken_default_input_types": sorted(scan["default_input_types"]),
+                       "broken_default_units": sorted(scan["default_units"])}}
 
 
 def tokz(x):
@@ -127,8 +174,20 @@ def ll_masks(h, keep_loops):
 def rand_edit(rng, pair, who):
     fam = PAIRS[pair][2]
     if pair == "DC":
+        if rng.chance(35):
+            return {"op": "crs", "a": who, "code": rng.below(9)}
         return {"op": "edit", "a": who, "key": "note", "val": rng.below(50)}
-    c = rng.below(100)
+    c = rng.below(130)
+    if c >= 100:
+        if c < 110 and fam in ("FTEM", "FLargeTEM"):
+            return {"op": "timing", "a": who, "val": rng.range(1, 9)}
+        if c < 118:
+            return {"op": "nest", "a": who, "val": rng.below(50)}
+        if c < 124:
+            return {"op": "edit", "a": who, "key": "Input type", "val": None}
+        if pair.startswith("Airborne"):
+            return {"op": "edit", "a": who, "key": "Angles relative to bearing", "val": rng.chance(50)}
+        return {"op": "nest", "a": who, "val": rng.below(50)}
     if c < 40:
         return {"op": "edit", "a": who, "key": "P%d" % rng.below(3), "val": rng.below(50)}
     if c < 55:
@@ -159,6 +218,39 @@ def generate(rng, tier):
                 mask, mask_b = ll_masks(h, {1, loops})   # three loops: the non-adjacent ids 1 and 3
             cases.append({"hist": h + [{"op": "copy", "a": 0, "tws": 0, "mask": mask}, {"op": "reopen"}]})
             cases.append({"hist": h + [{"op": "copy", "a": 1, "tws": 1, "mask": mask_b}, {"op": "reopen"}]})
+            # re-linking: a second partner, linked from either side, and back; every step fully observed, then re-open
+            third = dict(h[1 if direction == 0 else 0])
+            third = {k_: v_ for k_, v_ in third.items() if k_ != "quiet"}
+            a_side = 0 if third["role"] == "B" else 1          # the entity that gets a new partner
+            hr = base_history(pair, direction, n, rng)
+            for o_, src_ in zip(hr[:2], h[:2]):
+                o_.update({k_: src_[k_] for k_ in ("n", "loops")})
+            hr.insert(2, third)                                 # entity 2 = the alternative partner
+            hr[3] = {"op": "link", "a": hr[3]["a"], "b": hr[3]["b"]}
+            cases.append({"hist": hr + [rand_edit(rng, pair, 0), {"op": "link", "a": a_side, "b": 2}, rand_edit(rng, pair, a_side), {"op": "reopen"},
+                                        {"op": "link", "a": 1 - a_side, "b": a_side}, {"op": "reopen"}]})
+            cases.append({"hist": hr + [{"op": "link", "a": 2, "b": a_side}, rand_edit(rng, pair, 2), {"op": "reopen"}]})
+            # every metadata setter applied when its block already exists, as the last edit before the file is closed, then again
+            # on the re-opened entities (alternating sides)
+            if pair != "DC":
+                setters = [{"op": "edit", "key": "Channels", "val": [2.0, 4.0]}, {"op": "unit", "idx": 2}, {"op": "edit", "key": "Input type", "val": None},
+                           {"op": "nest", "val": 7}]
+                if fam in ("FTEM", "FLargeTEM"):
+                    setters += [{"op": "wave", "seed": 11}, {"op": "timing", "val": 5}, {"op": "timing", "val": 6}, {"op": "wave", "seed": 12}]
+                if pair.startswith(("Airborne", "MovingLoop")):
+                    setters.append({"op": "edit", "key": "Loop radius", "val": 3.0})
+                if pair.startswith("Airborne"):
+                    setters.append({"op": "edit", "key": "Angles relative to bearing", "val": True})
+                hs = base_history(pair, direction, n, rng)
+                for j, st_ in enumerate(setters):
+                    hs += [dict(st_, a=j % 2), {"op": "reopen"}]
+                for j, st_ in enumerate(setters):
+                    hs += [dict(st_, a=(j + 1) % 2, quiet=True), {"op": "reopen"}]
+                cases.append({"hist": hs})
+            else:
+                hs = base_history(pair, direction, n, rng)
+                cases.append({"hist": hs + [{"op": "crs", "a": 0, "code": 1}, {"op": "reopen"}, {"op": "edit", "a": 1, "key": "note", "val": 4}, {"op": "crs", "a": 1, "code": 2},
+                                            {"op": "reopen"}, {"op": "copy", "a": 0, "tws": 0, "mask": None}, {"op": "reopen"}]})
             # edits through the side whose partner has never been read, observed on the file only; then fetch-one-and-edit after re-open
             if pair != "DC":
                 other = 1 - (0 if direction == 0 else 1)   # the side that did NOT perform the link
@@ -268,7 +360,7 @@ def _canon_md(md, ent, ents, partner=None, quiet=False):
             continue
         kn = keynum(k)
         if isinstance(v, uuid.UUID):
-            owners = [x["obj"] for x in ents if x["ws"] == ent["ws"]] if quiet else [ent["obj"], partner]
+            owners = [x["obj"] for x in ents if x["ws"] == ent["ws"]]   # a Transmitter ID property of some survey of this workspace
             own = [c.uid for o in owners if o is not None and not isinstance(o, tuple)
                    for c in o.children if getattr(c, "name", None) in ("Transmitter ID",)]
             if k == "Tx ID property" and v in own:
@@ -411,11 +503,25 @@ def drive_one(case, work):
                         o.channels = list(op["val"])
                     elif op["key"] == "Loop radius":
                         o.loop_radius = float(op["val"])
+                    elif op["key"] == "Input type":
+                        o.input_type = o.default_input_types[0]
+                        op["_val"] = o.default_input_types[0]
+                    elif op["key"] == "Angles relative to bearing":
+                        o.relative_to_bearing = bool(op["val"])
                     else:
                         o.edit_em_metadata({op["key"]: op["val"]})
                     defaults_log.append(None)
                 elif kind == "wave":
                     ents[op["a"]]["obj"].waveform = _waveform(op["seed"])
+                    defaults_log.append(None)
+                elif kind == "timing":
+                    ents[op["a"]]["obj"].timing_mark = float(op["val"])
+                    defaults_log.append(None)
+                elif kind == "nest":
+                    ents[op["a"]]["obj"].edit_em_metadata({"Nested": {"a": op["val"]}})
+                    defaults_log.append(None)
+                elif kind == "crs":
+                    ents[op["a"]]["obj"].coordinate_reference_system = {"Code": "EPSG:%d" % op["code"], "Name": "n%d" % op["code"]}
                     defaults_log.append(None)
                 elif kind == "unit":
                     o = ents[op["a"]]["obj"]
@@ -462,7 +568,10 @@ def drive_one(case, work):
         for p in paths:
             if os.path.exists(p):
                 os.remove(p)
-    return {"steps": steps, "defaults": defaults_log}
+    from geoh5py.shared.entity import DEFAULT_CRS
+
+    vals = {str(i): op.get("_val") for i, op in enumerate(case["hist"]) if "_val" in op}
+    return {"steps": steps, "defaults": defaults_log, "crs_default": tokz(_plain(DEFAULT_CRS)), "vals": vals}
 
 
 # ----------------------------------------------------------------------------- Coq terms
@@ -511,8 +620,20 @@ def _oview(v):
                               "None" if v["ident"] is None else "(Some %s)" % cnat(v["ident"]))
 
 
-def _op_term(op, obs, idx):
+def _cls_at(case, obs, i):
+    op = case["hist"][i]
+    for st in reversed(obs["steps"][: i + 1]):
+        if "views" in st and op["a"] < len(st["views"]):
+            return st["views"][op["a"]]["cls"]
+    return None
+
+
+def _op_term(op, obs, idx, case=None):
     k = op["op"]
+    if case is not None and k in ("unit", "edit"):
+        prop = "default_units" if k == "unit" else ("default_input_types" if op.get("key") == "Input type" else None)
+        if prop and _cls_at(case, obs, idx) in BROKEN[prop]:
+            return "(OFail %s)" % cnat(op["a"])
     if k == "create":
         fam = PAIRS[op["pair"]][2]
         dfl = obs["defaults"][idx] if idx < len(obs["defaults"]) and obs["defaults"][idx] is not None else []
@@ -520,8 +641,16 @@ def _op_term(op, obs, idx):
                                                clist("(%s,%s)" % (cnat(a), _z(b)) for a, b in dfl))
     if k == "link":
         return "(OLink %s %s)" % (cnat(op["a"]), cnat(op["b"]))
+    if k == "timing":
+        return "(OTiming %s %s)" % (cnat(op["a"]), _z(tokz(op["val"])))
+    if k == "nest":
+        return "(ONest %s %s %s %s)" % (cnat(op["a"]), cnat(keynum("Nested")), cnat(keynum("a")), _z(tokz(op["val"])))
+    if k == "crs":
+        return "(OCrs %s %s %s)" % (cnat(op["a"]), _z(tokz({"Code": "EPSG:%d" % op["code"], "Name": "n%d" % op["code"]})), _z(obs["crs_default"]))
     if k == "edit":
         val = op["val"]
+        if op["key"] == "Input type":
+            val = (obs.get("vals") or {}).get(str(idx))
         if op["key"] == "Channels":
             val = [_num(x) for x in val]
         elif op["key"] == "Loop radius":
@@ -563,7 +692,7 @@ def case_term(case, obs):
     ops, views = [], []
     for i, st in enumerate(steps):
         op = case["hist"][i]
-        t = _op_term(op, obs, i)
+        t = _op_term(op, obs, i, case)
         if "UNIT" in t:
             ut = _unit_token(case, obs, i)
             if ut is None:
@@ -587,6 +716,9 @@ def model_term(case):
 
 
 # ----------------------------------------------------------------------------- oracle (property text)
+EDIT_OPS = ("edit", "wave", "unit", "timing", "nest", "crs")
+
+
 def _get(d, k):
     for kk, v in d or []:
         if kk == k:
@@ -616,6 +748,9 @@ def oracle(case, obs):
     prev_views = None
     prev_quiet = False
     creates = {}
+    former = {}        # entity -> its ex-partner, after a re-link moved the partner elsewhere
+    relinked = set()   # entities that were given a new partner while they had one
+    stale = {}         # entity -> the partner its getter resolved (and cached) before it was re-linked from elsewhere
     for i, st in enumerate(steps):
         op = hist[i]
         k = op["op"]
@@ -623,6 +758,8 @@ def oracle(case, obs):
             key = "%s-refused:%s" % (k, st["error"])
             if k == "unit" and st["error"] == "AttributeError":
                 key = "tipper-unit-setter-attribute-error"
+            elif k == "edit" and op.get("key") == "Input type" and st["error"] == "AttributeError":
+                key = "input-type-setter-attribute-error"
             elif k == "copy" and "zero-size array" in str(st.get("msg")) and op["mask"] is not None:
                 key = "dc-masked-copy-no-cell-raises"
             elif k == "copy" and st["error"] == "ValueError" and op["mask"] is not None:
@@ -647,10 +784,24 @@ def oracle(case, obs):
             pairs[len(views) - 1] = op["pair"]
         elif k == "link":
             for x in (op["a"], op["b"]):
+                old0 = linked.get(x)
+                # the link setters of EM surveys refresh the cache of the entity they are called on only; electrode setters refresh none
+                if old0 is not None and old0 not in (op["a"], op["b"]) and (x == op["b"] or roles.get(x) == "DC"):
+                    stale[x] = old0
+                elif x == op["a"] and roles.get(x) != "DC":
+                    stale.pop(x, None)
+            for x in (op["a"], op["b"]):
                 old = linked.pop(x, None)
                 if old is not None:
                     linked.pop(old, None)
+                    if old not in (op["a"], op["b"]):
+                        former[old] = x      # a re-link: `old` was the partner of x and is no longer addressed
+                        relinked.add(x)
+            former.pop(op["a"], None)
+            former.pop(op["b"], None)
             linked[op["a"]], linked[op["b"]] = op["b"], op["a"]
+        elif k == "reopen":
+            stale.clear()
         elif k == "copy":
             n_before = len(prev_views) if prev_views else 0
             a = op["a"]
@@ -720,7 +871,11 @@ def oracle(case, obs):
                         fails.append({"key": "link-ids-missing", "what": f"step {i} ({k}): stored metadata of entity {who} names {sorted(ids)} instead of both partners ({a},{b})"})
                 continue
             if va["partner"] != b or vb["partner"] != a:
-                fails.append({"key": "partner-getter", "what": f"step {i} ({k}): partner getters of linked pair ({a},{b}) give {va['partner']} / {vb['partner']}"})
+                wrong = [(x, y, v["partner"]) for x, y, v in ((a, b, va), (b, a, vb)) if v["partner"] != y]
+                key = "partner-getter"
+                if wrong and all(x in stale and got == stale[x] for x, _, got in wrong):
+                    key = "relink-stale-partner-cache"   # the getter still answers with the partner it resolved before the re-link
+                fails.append({"key": key, "what": f"step {i} ({k}): partner getters of linked pair ({a},{b}) give {va['partner']} / {vb['partner']}"})
                 continue
             for v, who in ((va, a), (vb, b)):
                 d = v["live"]
@@ -749,11 +904,24 @@ def oracle(case, obs):
                         key = "tem-copy-shares-waveform-dict"
                     fails.append({"key": key, "what": f"step {i} ({k}): live and stored metadata of entity {who} differ: live {str(v['live'])[:120]} stored {str(v['stored'])[:120]}"})
         # edits are visible on both: the edited key has the edited value on both partners
-        if k in ("edit", "wave", "unit") and op["a"] in linked:
+        if k in EDIT_OPS and op["a"] in linked:
             a, b = op["a"], linked[op["a"]]
             if roles.get(a) != "DC":
+                if k == "timing":
+                    for who in (a, b):
+                        w = _get(views[who]["stored" if quiet else "live"], 2)
+                        ws_ = _get(views[who]["stored"], 2)
+                        if not w or _get(w[1], 0) != tokz(op["val"]) or not ws_ or _get(ws_[1], 0) != tokz(op["val"]):
+                            fails.append({"key": "edit-not-visible-on-both", "what": f"step {i}: timing mark {op['val']} not visible/stored on entity {who}"})
+                elif k == "nest":
+                    want = ["D", [[keynum("a"), tokz(op["val"])]]]
+                    for who in (a, b):
+                        if (not quiet and _get(views[who]["live"], keynum("Nested")) != want) or _get(views[who]["stored"], keynum("Nested")) != want:
+                            fails.append({"key": "edit-not-visible-on-both", "what": f"step {i}: nested entry not visible/stored on entity {who}"})
                 if k == "edit":
                     val = op["val"]
+                    if op["key"] == "Input type":
+                        val = (obs.get("vals") or {}).get(str(i))
                     if op["key"] == "Channels":
                         val = [_num(x) for x in val]
                     elif op["key"] == "Loop radius":
@@ -769,14 +937,23 @@ def oracle(case, obs):
                         if not w or _get(w[1], 1) != _wave_token(op["seed"]):
                             fails.append({"key": "edit-not-visible-on-both", "what": f"step {i}: waveform not visible on entity {who}"})
         # an edit of a pair must not change any other pair
-        if k in ("edit", "wave", "unit") and prev_views is not None:
+        if k == "crs" and roles.get(op["a"]) == "DC":
+            blk = _get(views[op["a"]]["stored"], 30)
+            want = tokz({"Code": "EPSG:%d" % op["code"], "Name": "n%d" % op["code"]})
+            if not blk or _get(blk[1], 0) != want:
+                fails.append({"key": "edit-not-stored", "what": f"step {i}: coordinate reference system not stored on entity {op['a']}"})
+        if k in EDIT_OPS and prev_views is not None:
             touched = {op["a"], linked.get(op["a"])}
             for j, (v0, v1) in enumerate(zip(prev_views, views)):
                 if j in touched:
                     continue
                 if (not quiet and not prev_quiet and v0["live"] != v1["live"]) or v0["stored"] != v1["stored"]:
                     key = "edit-changes-other-pair"
-                    if k == "wave":
+                    if j in former and v0["stored"] == v1["stored"]:
+                        key = "relink-former-partner-keeps-shared-dict"
+                    elif roles.get(j) == "DC" and v0["stored"] == v1["stored"]:
+                        key = "dc-shared-dict-partner-not-stored"
+                    if k in ("wave", "timing") and key == "edit-changes-other-pair":
                         key = "tem-copy-shares-waveform-dict"
                     fails.append({"key": key, "what": f"step {i} ({k} on {op['a']}): metadata of unrelated entity {j} changed"})
         # a copy must not change the originals
@@ -815,7 +992,7 @@ def _src_wave_alias(i, hist, who, views, prev_views):
 
 def nontrivial(case, obs):
     kinds = [o["op"] for o in case["hist"]]
-    return "link" in kinds and ("copy" in kinds or ("reopen" in kinds and any(k in kinds for k in ("edit", "wave", "unit"))))
+    return "link" in kinds and ("copy" in kinds or ("reopen" in kinds and any(k in kinds for k in EDIT_OPS)))
 
 
 def histogram(cases, obs):
